@@ -21,6 +21,7 @@ B. CONTRACT — the clauses of the property, for every run of the atomic flat sp
 -/
 import Pandora.Proofs.C02Reach
 import Pandora.Bridge.C02Locks
+import Pandora.Bridge.C02DoAt
 
 set_option linter.unusedVariables false
 
@@ -424,10 +425,10 @@ theorem C02_onFinish_sound (segs0 : List Seg) (newer older : Log) (e : Nat × In
 (a token-less part of duration d, once(step)); so started at `t` it hands out `from` tokens at `t` and `step` tokens
 at `t + j·d` for j = 1..k, each exactly once, and finishes at `t + k·d` — and, being a tree, everything above
 applies to it. -/
-theorem C02_instance_step (frm to step : Nat) (dur : Int) :
-    ∃ k, flat (instanceStepTree frm to step dur) =
+theorem C02_instance_step (frm upto step : Nat) (dur : Int) :
+    ∃ k, flat (instanceStepTree frm upto step dur) =
       Part.fin (List.replicate frm 0) 0 :: (List.replicate k [Part.fin [] dur, Part.fin (List.replicate step 0) 0]).flatten := by
-  obtain ⟨k, hk⟩ := flatList_isLoop to step dur (to + 1) (frm + step)
+  obtain ⟨k, hk⟩ := flatList_isLoop upto step dur (upto + 1) (frm + step)
   exact ⟨k, by simp [instanceStepTree, flat, flatList, hk]⟩
 
 /-- tokens of `k` rounds of (wait `dur`, then `step` tokens at once) after time `t` -/
@@ -463,6 +464,31 @@ two scheduling points before `Lock`, retries, or panics after `Unlock` — the s
 theorem C02_lock_discipline : ∀ r ∈ Pandora.Gen.C02Locks.rows, Pandora.Bridge.C02Locks.rowOK r = true := by
   rw [Pandora.Bridge.C02Locks.rows_eq]
   exact Pandora.Bridge.C02Locks.expected_ok
+
+/-- **The finite leaf of the model is the leaf of the source** (`Gen/Schedule.lean` re-translates do_at.go and
+start_sync.go on every check): read through `toLeaf`, the regenerated `doAtSchedule` starts as the unstarted model
+leaf with offsets `doAt 0 … doAt (n-1)`, and its `Start`, `Next` (auto-start by the clock reading, overshooting
+index) and `Left` (clamped at 0) do exactly what `Leaf.start/next/left` do, the double-start panic included. -/
+theorem C02_leaf_is_source (duration n : Int) (doAt : Int → Int) (hn : 0 ≤ n) :
+    let s0 := Pandora.Gen.Schedule.NewDoAtSchedule duration n doAt
+    Pandora.Bridge.C02DoAt.WF s0 ∧
+    leafU (Pandora.Bridge.C02DoAt.toLeaf s0) [Part.fin ((List.range n.toNat).map (fun (k : Nat) => doAt (Int.ofNat k))) duration] ∧
+    (∀ s, Pandora.Bridge.C02DoAt.WF s → ∀ now t,
+      (∃ s' tx ok, Pandora.Gen.Schedule.doAtSchedule_Next now s = .ok ((tx, ok), s') ∧
+        Leaf.next (Pandora.Bridge.C02DoAt.toLeaf s) now = .ok (Pandora.Bridge.C02DoAt.toLeaf s', tx, ok) ∧
+        Pandora.Bridge.C02DoAt.WF s') ∧
+      (∃ l, Pandora.Gen.Schedule.doAtSchedule_Left s = .ok (l, s) ∧
+        Leaf.left (Pandora.Bridge.C02DoAt.toLeaf s) now = .ok (Pandora.Bridge.C02DoAt.toLeaf s, l)) ∧
+      ((∃ s', Pandora.Gen.Schedule.doAtSchedule_Start s t = .ok ((), s') ∧
+          Leaf.start (Pandora.Bridge.C02DoAt.toLeaf s) t = .ok (Pandora.Bridge.C02DoAt.toLeaf s') ∧
+          Pandora.Bridge.C02DoAt.WF s') ∨
+        (Pandora.Gen.Schedule.doAtSchedule_Start s t = .error "schedule is already started" ∧
+          Leaf.start (Pandora.Bridge.C02DoAt.toLeaf s) t = .error alreadyStarted))) := by
+  refine ⟨Pandora.Bridge.C02DoAt.wf_new duration n doAt hn, ?_, fun s hs now t =>
+    ⟨Pandora.Bridge.C02DoAt.next_bridge s hs now, Pandora.Bridge.C02DoAt.left_bridge s hs now,
+     Pandora.Bridge.C02DoAt.start_bridge s hs t⟩⟩
+  rw [Pandora.Bridge.C02DoAt.new_leaf]
+  simp [leafU]
 
 /-! ## non-vacuity -/
 
